@@ -2,6 +2,7 @@
 package simenv
 
 import (
+	"encoding/binary"
 	"context"
 
 	"verif/harness/model"
@@ -52,6 +53,7 @@ type Knobs struct {
 	PStmt                 float64 `json:"p_stmt"`
 	StepCostNs            int    `json:"step_cost_ns"`
 	AsyncParallelism      int    `json:"async_parallelism,omitempty"`
+	AggLimits             bool   `json:"agg_limits,omitempty"` // aggregation limits as shipped (flags' defaults) instead of "no limits"
 }
 
 // DefaultKnobs gives a plain configuration.
@@ -87,6 +89,9 @@ var Mapping = seq.Mapping{
 	"svc": seq.NewSingleType(seq.TokenizerTypeKeyword, "", 0),
 	"num": seq.NewSingleType(seq.TokenizerTypeKeyword, "", 0),
 	"u":   seq.NewSingleType(seq.TokenizerTypeKeyword, "", 0),
+	// fields of nested elements (the store only needs them to parse queries)
+	"n.a": seq.NewSingleType(seq.TokenizerTypeKeyword, "", 0),
+	"n.b": seq.NewSingleType(seq.TokenizerTypeKeyword, "", 0),
 }
 
 // Store is one seq-db store process on a simulated node.
@@ -132,11 +137,20 @@ func (st *Store) fmConfig() *fracmanager.Config {
 			DocBlocksZstdLevel: k.ZstdLevel, DocBlockSize: k.DocBlockSize,
 		},
 		Fraction: frac.Config{
-			Search:       frac.SearchConfig{AggLimits: frac.AggLimits{}},
+			Search:       frac.SearchConfig{AggLimits: st.aggLimits()},
 			SkipSortDocs: k.SkipSortDocs,
 			KeepMetaFile: k.KeepMetaFile,
 		},
 	}
+}
+
+// aggLimits: zero values switch the limits (and the per-source counting they need) off; the
+// shipped defaults are cmd/seq-db/flags.go's. The simulated corpora never reach them.
+func (st *Store) aggLimits() frac.AggLimits {
+	if !st.Knobs.AggLimits {
+		return frac.AggLimits{}
+	}
+	return frac.AggLimits{MaxFieldTokens: 1000000, MaxGroupTokens: 2000, MaxTIDsPerFraction: 100000}
 }
 
 // Start boots a new incarnation: NewFracManager -> Load -> Start -> NewGrpcV1, executed on a
@@ -246,7 +260,24 @@ func BuildBulk(docs []*model.Doc) (docsBlock, metasBlock []byte) {
 			toks = append(toks, seq.Token{Field: []byte(t.F), Val: []byte(t.V)})
 			toks = append(toks, seq.Token{Field: []byte(seq.TokenExists), Val: []byte(t.F)})
 		}
-		dp.Append(d.Body(), nil, seq.ID{MID: seq.MID(d.MID), RID: seq.RID(d.RID)}, toks)
+		id := seq.ID{MID: seq.MID(d.MID), RID: seq.RID(d.RID)}
+		dp.Append(d.Body(), nil, id, toks)
+		// nested elements: one zero-sized meta per element under the parent's ID, own _all_ token,
+		// the element's tokens, then the parent's tokens (as proxy/bulk/indexer.go emits them)
+		for _, n := range d.Nested {
+			md := frac.MetaData{ID: id, Size: 0}
+			md.Tokens = append(md.Tokens, frac.MetaToken{Key: []byte(seq.TokenAll), Value: []byte{}})
+			for _, t := range n {
+				md.Tokens = append(md.Tokens, frac.MetaToken{Key: []byte(t.F), Value: []byte(t.V)})
+				md.Tokens = append(md.Tokens, frac.MetaToken{Key: []byte(seq.TokenExists), Value: []byte(t.F)})
+			}
+			for _, t := range toks[1:] {
+				md.Tokens = append(md.Tokens, frac.MetaToken{Key: t.Field, Value: t.Val})
+			}
+			buf := md.MarshalBinaryTo(make([]byte, 4))
+			binary.LittleEndian.PutUint32(buf, uint32(len(buf)-4))
+			dp.Metas = append(dp.Metas, buf...)
+		}
 	}
 	db, mb := dp.Provide()
 	return append([]byte(nil), db...), append([]byte(nil), mb...)
